@@ -756,6 +756,55 @@ fn mutate_verifiable(sim: &Sim, v: &packed::VerifiableHeader, rng: &mut Rng) -> 
     }
 }
 
+/// The requested last header, but with the chain root - and with it all headers and the MMR
+/// proof - of a side branch whose block of that height carries the same total difficulty (the
+/// request / response match only compares the total difficulty of the root).
+fn stale_branch_answer(
+    sim: &Sim,
+    p: usize,
+    m: &packed::SendLastStateProof,
+    request: Option<&Bytes>,
+    op: u32,
+    rng: &mut Rng,
+) -> Option<(packed::SendLastStateProof, String)> {
+    if op % 14 != 12 || sim.world.branches.len() < 2 || !rng.chance(2, 3) {
+        return None;
+    }
+    let view = sim.peers[p].view;
+    let req = match packed::LightClientMessageReader::from_compatible_slice(request?).ok()?.to_enum() {
+        packed::LightClientMessageUnionReader::GetLastStateProof(r) => r.to_entity(),
+        _ => return None,
+    };
+    let last_number = sim.world.number_on_branch(view.branch, &req.last_hash(), view.height)?;
+    for ob in 0..sim.world.branches.len() {
+        if ob == view.branch {
+            continue;
+        }
+        let other = match sim.world.block_opt(ob, last_number) {
+            Some(b) => b,
+            None => continue,
+        };
+        if other.hash() == req.last_hash() || other.td != sim.world.td(view.branch, last_number) {
+            continue;
+        }
+        let req2 = req.clone().as_builder().last_hash(other.hash()).build();
+        if let server::ProofAnswer::Reply(m2, _) =
+            server::last_state_proof(&sim.world, View { branch: ob, height: last_number }, &req2)
+        {
+            let last = m
+                .last_header()
+                .as_builder()
+                .parent_chain_root(m2.last_header().parent_chain_root())
+                .build();
+            return Some((
+                m2.as_builder().last_header(last).build(),
+                format!("requested last header with the chain root, headers and proof of branch {} (same total difficulty)", ob),
+            ));
+        }
+    }
+    None
+}
+
 fn mutate_last_state_proof(
     sim: &Sim,
     p: usize,
@@ -1173,8 +1222,10 @@ pub fn mutate(
                 .ok()
                 .and_then(|m| match m.to_enum() {
                     packed::LightClientMessageUnionReader::SendLastStateProof(r) => {
-                        let (m2, note) =
-                            mutate_last_state_proof(sim, p, &r.to_entity(), tag.layout.as_ref(), spec.op, &mut rng);
+                        let (m2, note) = match stale_branch_answer(sim, p, &r.to_entity(), tag.request.as_ref(), spec.op, &mut rng) {
+                            Some(x) => x,
+                            None => mutate_last_state_proof(sim, p, &r.to_entity(), tag.layout.as_ref(), spec.op, &mut rng),
+                        };
                         Some((lc_msg(m2).as_bytes(), note))
                     }
                     _ => None,
